@@ -7,7 +7,7 @@
 export GOFLAGS=-mod=mod GOPROXY=off GOSUMDB=off GOTOOLCHAIN=local
 d="$(readlink -f "$1")"
 wt=$(mktemp -d /tmp/confirm-XXXXXX); rmdir "$wt"
-git -C /repo worktree add -q --detach "$wt" HEAD || exit 2
+git -C /repo worktree add -q --detach "$wt" "${BASE:-HEAD}" || exit 2
 trap 'git -C /repo worktree remove --force "$wt" 2>/dev/null; rm -rf "$wt"' EXIT
 res=""
 ( cd "$wt" && timeout 600 bash "$d/demo/run.sh" "$wt" >/tmp/confirm.$$.clean 2>&1 ); c0=$?
